@@ -48,6 +48,10 @@ func zzC07_run() {
 			largest = len(f)
 		}
 	}
+	later := zzMkFrame(codes.Content, message.Token{0xAF}, []byte{0x7e}) // sent at the end, in a read of its own
+	if len(later) > largest {
+		largest = len(later)
+	}
 	// the maximum message size is generous, or exactly the size of the largest message of the stream (every
 	// message is within the maximum; what is buffered together with its neighbours may well be more than that)
 	maxSize := uint32(1152)
@@ -99,6 +103,10 @@ func zzC07_run() {
 		symAssert(bytes.Equal(got[i].token, want[i].token) && bytes.Equal(got[i].payload, want[i].payload), "in stream order, with its own token and payload")
 	}
 	symCover("delivered")
+	// one more message arrives later, in a read of its own: nothing that was already delivered comes again
+	nc.in <- later
+	symIdle()
+	symAssert(len(got) == nmsg+1 && len(got[len(got)-1].token) == 1 && got[len(got)-1].token[0] == 0xAF, "a later read delivers the message it carries and nothing that was delivered before")
 	_ = cc.Close()
 	symWaitUntil(func() bool { return runDone })
 }
